@@ -21,6 +21,16 @@ func CheckRecovery(o *Obs, legal []*Model, inflight string) []Violation {
 	add := func(p, f string, a ...interface{}) { vs = append(vs, Violation{Prop: p, Msg: fmt.Sprintf(f, a...)}) }
 	if o.OpenErr != "" {
 		add("C03", "Open failed after crash: %s", o.OpenErr)
+		if inflight == "D" {
+			add("C04", "a crash during DeleteRange left a directory that cannot be opened (neither applied nor not applied): %s", o.OpenErr)
+		} else {
+			for _, m := range legal {
+				if m.Deleted {
+					add("C04", "after an acknowledged DeleteRange a crash left a directory that cannot be opened (the truncation does not stay applied): %s", o.OpenErr)
+					break
+				}
+			}
+		}
 		for _, m := range legal {
 			if len(m.Acked) > 0 {
 				add("C01", "Open failed after crash with acknowledged entries in the log: %s", o.OpenErr)
